@@ -65,6 +65,7 @@ type lockRec struct {
 	hasStart bool
 	reg      *definition.RegisterParam
 	ptype    uint8
+	unlockedAt int64 // liquidity stake: frontier time of the administrator's UnlockLiquidityStakeEntries that released it early (0 = never)
 }
 
 type kParams struct {
@@ -128,6 +129,8 @@ type contractRun struct {
 	sentinels []*definition.SentinelInfo
 	lstakes   []*definition.LiquidityStakeEntry
 	lastTuples string
+	liqAdmin   types.Address // liquidity: LiquidityInfo.Administrator as of the last momentum
+	adminPhase string        // lock-vs-administration scenario: the administrative change made last (hit counters only)
 	unwraps   []*definition.UnwrapTokenRequest
 	runBal    map[types.Address]map[types.ZenonTokenStandard]*big.Int // balance of a contract just before the receive being monitored (last momentum's balance + the blocks since)
 	revoked   map[string]bool // bridge: unwrap requests revoked by the administrator (from confirmed receives)
@@ -483,6 +486,9 @@ func (r *contractRun) onMomentum(dm *nom.DetailedMomentum) {
 		d := decodeCall(b.Address, send.Data)
 		if b.Address == types.BridgeContract {
 			r.decodeBridge(d, send, ack.Height)
+		}
+		if b.Address == types.LiquidityContract {
+			r.decodeLiquidityAdmin(d, send)
 		}
 		outcome := fmt.Sprintf("%s %d%s", status, len(b.DescendantBlocks), sb.String())
 		head := fmt.Sprintf("%s %s %s %s %s %s %d %d", cname(b.Address), d.method, addrName(send.Address), tokName(send.TokenStandard), amt(send.Amount), h8z(send.Hash),
@@ -946,8 +952,16 @@ func (r *contractRun) monitorReceive(b, send *nom.AccountBlock, d *decoded, stat
 					r.c.Hit("refusal-liquidity.CancelLiquidityStake-not-owner-or-unknown-id")
 				default:
 					r.c.Hit("refusal-liquidity.CancelLiquidityStake-too-early")
+					if r.adminPhase != "" {
+						r.c.Hit("lock-holds-early-cancel-refused-after-" + r.adminPhase)
+					}
 				}
 			}
+			if ok && lk != nil && lk.unlockedAt != 0 && lk.paidAt == h {
+				r.c.Hit("lstake-released-early-after-administrator-unlock")
+			}
+		default:
+			r.monitorLiquidityAdmin(b, send, d, ok, ackT)
 		}
 	case types.PillarContract, types.SentinelContract:
 		qkey := cname(b.Address) + "/" + addrName(send.Address)
@@ -1471,6 +1485,7 @@ func (r *contractRun) compareState(h uint64) {
 	{
 		st := r.storage(types.LiquidityContract)
 		if info, err := definition.GetLiquidityInfo(st); err == nil && info != nil {
+			r.liqAdmin = info.Administrator
 			var sb strings.Builder
 			for _, tt := range info.TokenTuples {
 				fmt.Fprintf(&sb, " %s %s", tokName(types.ParseZTSPanic(tt.TokenStandard)), amt(tt.MinAmount))
@@ -1955,6 +1970,14 @@ func contractHistory(c *Ctx, id int) {
 			return big.NewInt(1 + int64(c.R.Intn(5))), types.QsrTokenStandard
 		}
 		return zero, types.ZnnTokenStandard
+	}
+
+	// directed scenario of every liquidity history: a lock holds whatever the administrator does between deposit and release
+	if withLiq && c.Args["lockadmin"] != "0" {
+		if !r.lockVsAdministration(histEnv{call: call, advance: advance, now: frontierTime, qsr: qsr}, users) {
+			return
+		}
+		start = n.Height()
 	}
 
 	genPlasma := func() {
